@@ -1213,3 +1213,77 @@ pub fn engine_cachediff(cases: Vec<Value>, out: &mut NdjsonOut) {
         env.cleanup();
     }
 }
+
+
+// logconc: several actors (each its own stream) append through ONE EventLog at the same time, frames of
+// chosen sizes around and far above the writer's buffer (8 KiB).  The log file must consist of whole,
+// newline-terminated frames, each stream numbered in file order (StoreSeq: the log append is one atomic
+// step whatever the frame's size).
+pub fn engine_logconc(cases: Vec<Value>, out: &mut NdjsonOut) {
+    for case in cases {
+        let root = util::scratch_root().join(format!("lc-{}", uuid::Uuid::new_v4().simple()));
+        std::fs::create_dir_all(&root).unwrap();
+        let path = root.join("events.jsonl");
+        let log = Arc::new(rip_log::EventLog::new(&path).expect("log"));
+        let writers = case["writers"].as_array().cloned().unwrap_or_default();
+        let barrier = Arc::new(std::sync::Barrier::new(writers.len()));
+        let mut hs = Vec::new();
+        for (w, spec) in writers.iter().enumerate() {
+            let n = get_u64(spec, "n").unwrap_or(20);
+            let pad = get_u64(spec, "pad").unwrap_or(10) as usize;
+            let log = log.clone();
+            let barrier = barrier.clone();
+            hs.push(std::thread::spawn(move || {
+                barrier.wait();
+                let sid = format!("lc-{w}");
+                let mut ok = 0u64;
+                for q in 0..n {
+                    let kind = if q == 0 {
+                        rip_kernel::EventKind::SessionStarted { input: "x".repeat(pad) }
+                    } else {
+                        rip_kernel::EventKind::OutputTextDelta { delta: "d".repeat(pad + (q as usize % 7)) }
+                    };
+                    let e = rip_kernel::Event { id: format!("{sid}-{q}"), session_id: sid.clone(), timestamp_ms: q, seq: q, kind };
+                    if log.append(&e).is_ok() {
+                        ok += 1;
+                    }
+                }
+                ok
+            }));
+        }
+        let acked: u64 = hs.into_iter().map(|h| h.join().unwrap_or(0)).sum();
+        let bytes = std::fs::read(&path).unwrap_or_default();
+        let nl = bytes.is_empty() || bytes.last() == Some(&b'\n');
+        let mut bad_lines = 0u64;
+        let mut frames = 0u64;
+        let mut first_bad = Value::Null;
+        let mut next: HashMap<String, u64> = HashMap::new();
+        let mut misnumbered = 0u64;
+        let body = if nl && !bytes.is_empty() { &bytes[..bytes.len() - 1] } else { &bytes[..] };
+        for (i, line) in body.split(|b| *b == b'\n').enumerate() {
+            if bytes.is_empty() {
+                break;
+            }
+            match serde_json::from_slice::<rip_kernel::Event>(line) {
+                Ok(e) => {
+                    frames += 1;
+                    let c = next.entry(e.stream_id().to_string()).or_insert(0);
+                    if e.seq != *c {
+                        misnumbered += 1;
+                    }
+                    *c = e.seq + 1;
+                }
+                Err(err) => {
+                    bad_lines += 1;
+                    if first_bad.is_null() {
+                        first_bad = json!({"line": i, "len": line.len(), "error": err.to_string().chars().take(120).collect::<String>()});
+                    }
+                }
+            }
+        }
+        let replay_validated = log.replay_validated().is_ok();
+        out.write(&json!({"id": case["id"], "acked": acked, "frames": frames, "bad_lines": bad_lines, "first_bad": first_bad,
+                          "ends_with_newline": nl, "misnumbered": misnumbered, "replay_validated": replay_validated, "bytes": bytes.len()}));
+        let _ = std::fs::remove_dir_all(&root);
+    }
+}
